@@ -274,7 +274,20 @@ func rulePathSeek(c *Ctx, r *Rep, tier string) {
 		}
 	}
 	// the sticky error is re-assigned on every path that is not the not-a-seeker return
-	isErrStore := func(x ssa.Instruction) bool { return isStoreToChain(x, fErr) }
+	isErrStore := func(x ssa.Instruction) bool {
+		if isStoreToChain(x, fErr) {
+			return true
+		}
+		// a helper of the Reader that assigns the sticky error on all its paths
+		if call, ok := x.(*ssa.Call); ok {
+			if g := staticCallee(&call.Call); g != nil && g.Blocks != nil && g.Pkg == fn.Pkg && len(call.Call.Args) > 0 && call.Call.Args[0] == ssa.Value(fn.Params[0]) {
+				if _, all := mustPass(entryLoc(g), isReturn, func(y ssa.Instruction) bool { return isStoreToChain(y, fErr) }, nil); all {
+					return true
+				}
+			}
+		}
+		return false
+	}
 	notSeeker := func(x ssa.Instruction) bool {
 		ret, ok := x.(*ssa.Return)
 		if !ok {
@@ -490,6 +503,25 @@ func ruleNextBlock(c *Ctx, r *Rep, tier string) {
 		}
 		if g := staticCallee(&call.Call); g != nil && g.Name() == "nextBlockAt" && len(call.Call.Args) >= 2 && call.Call.Args[1] == want {
 			return "match", true
+		}
+		// … or through a helper that hands its parameter on as the offset
+		if g := staticCallee(&call.Call); g != nil && g.Blocks != nil && g.Pkg == fn.Pkg {
+			for i, a := range call.Call.Args {
+				if a != want || i >= len(g.Params) {
+					continue
+				}
+				reads := false
+				allInstrs(g, func(x ssa.Instruction) {
+					if c2, ok := x.(*ssa.Call); ok {
+						if h := staticCallee(&c2.Call); h != nil && h.Name() == "nextBlockAt" && len(c2.Call.Args) >= 2 && c2.Call.Args[1] == ssa.Value(g.Params[i]) {
+							reads = true
+						}
+					}
+				})
+				if reads {
+					return "match", true
+				}
+			}
 		}
 		return "", false
 	}
